@@ -978,6 +978,12 @@ func dependsOn(v ssa.Value, pred func(ssa.Value) bool, seen map[ssa.Value]bool) 
 						return true
 					}
 				}
+				// whole-struct assignments to the variable (node := g.nodes[0])
+				for _, r := range *root.(*ssa.Alloc).Referrers() {
+					if st, ok := r.(*ssa.Store); ok && st.Addr == root && dependsOn(st.Val, pred, seen) {
+						return true
+					}
+				}
 				return false
 			}
 		}
